@@ -165,3 +165,58 @@ Lemma sd_startable_nonneg W G : sd_startable true W G = true <-> 0 <= W < G.
 Proof.
   unfold sd_startable. cbn [andb]. rewrite andb_true_iff, negb_true_iff, Z.ltb_ge, Z.ltb_lt. reflexivity.
 Qed.
+
+(** * Further signals: the outcome is a function of the first signal only *)
+Lemma sd_deliver_handled_alive extra : sd_all_handled extra = true ->
+  forall buf, exists buf', fold_left sd_deliver extra (SdAlive buf) = SdAlive buf'.
+Proof.
+  induction extra as [|s r IH]; intros H buf; cbn [fold_left].
+  - now exists buf.
+  - unfold sd_all_handled in H. cbn [forallb] in H. apply andb_true_iff in H. destruct H as [Hs Hr].
+    cbn [sd_deliver]. rewrite Hs. apply (IH Hr).
+Qed.
+
+Lemma sd_killed_at_handled W G l extra : sd_all_handled extra = true -> sd_killed_at W G l extra = None.
+Proof.
+  intros H. unfold sd_killed_at, sd_life_after. destruct (sd_deliver_handled_alive extra H None) as [b ->]. reflexivity.
+Qed.
+
+Lemma sd_outcome_one_signal W G l :
+  sd_outcome W G l [] = (sd_exit_time W G l, sd_exit_code W G l, map (sd_accepted W) l, map (sd_completes W G) l).
+Proof.
+  unfold sd_outcome, sd_exit_time_x, sd_exit_code_x. cbn. f_equal; [f_equal|]; apply map_ext; intros q.
+  - unfold sd_accepted_x. cbn. apply andb_true_r.
+  - unfold sd_completes_x. cbn. apply andb_true_r.
+Qed.
+
+(** any number of further SIGHUP / SIGINT / SIGTERM / SIGQUIT, at any instants, change nothing *)
+Theorem sd_extra_signals_noop W G l extra : sd_all_handled extra = true -> sd_outcome W G l extra = sd_outcome W G l [].
+Proof.
+  intros H. unfold sd_outcome, sd_exit_time_x, sd_exit_code_x, sd_accepted_x, sd_completes_x.
+  rewrite (sd_killed_at_handled W G l extra H). reflexivity.
+Qed.
+
+Theorem sd_extra_signals_pointwise W G l extra : sd_all_handled extra = true ->
+  sd_exit_time_x W G l extra = sd_exit_time W G l /\ sd_exit_code_x W G l extra = sd_exit_code W G l /\
+  (forall q, sd_accepted_x W G l extra q = sd_accepted W q) /\ (forall q, sd_completes_x W G l extra q = sd_completes W G q).
+Proof.
+  intros H. unfold sd_exit_time_x, sd_exit_code_x, sd_accepted_x, sd_completes_x.
+  rewrite (sd_killed_at_handled W G l extra H). repeat split; intros; apply andb_true_r.
+Qed.
+
+(** the hypothesis is needed: a signal that is not registered ends the process on the spot. W = 1 s, G = 3 s, a request in
+    flight that would finish at 1.5 s, SIGKILL 0.4 s after the first signal *)
+Theorem sd_unregistered_signal_kills :
+  exists W G q extra, 0 <= W /\ W < G /\ sd_accepted W q = true /\ sd_finish q <= G /\
+    sd_completes_x W G [q] extra q = false /\ sd_exit_code_x W G [q] extra = -9 /\ sd_exit_time_x W G [q] extra < W.
+Proof.
+  exists 1000000000, 3000000000, (mk_sd_req (-200000000) 1700000000), [mk_sd_sig 400000000 9].
+  vm_compute. repeat split; congruence.
+Qed.
+
+(** a kill never lengthens the life of the process *)
+Lemma sd_exit_time_x_le W G l extra : sd_exit_time_x W G l extra <= sd_exit_time W G l.
+Proof.
+  unfold sd_exit_time_x, sd_killed_at. destruct (sd_life_after extra) as [b|t k]; [lia|].
+  destruct (t <? sd_exit_time W G l) eqn:E; [apply Z.ltb_lt in E; lia|lia].
+Qed.
